@@ -43,29 +43,16 @@ theorem emitResults_spec (f : Nat) : ∀ (s s' : Sess), emitResults f s = .ok s'
     simp only [emitResults] at h
     split at h
     · rename_i hgt
-      obtain ⟨seg, r⟩ := popData_rev s.m
-      rcases hp : s.m.popData with ⟨o, m1⟩
-      rw [hp] at h r
-      cases o with
-      | ok v =>
-        simp only at h
-        have hctx : m1.ctx = s.m.ctx := r.ctx
-        have hds : m1.ds.length + 1 = s.m.ds.length := by
-          simp only [popData] at hp
-          split at hp
-          · rename_i c rest hds
-            split at hp
-            · cases hp; simp [logStep, hds]
-            · cases hp
-          · cases hp
-        have hcode : m1.code = s.m.code := r.fr.code
-        have hdict : m1.dict = s.m.dict := r.fr.dict
-        obtain ⟨a, b, c, d, dd, vs, e1, e2⟩ := ih _ s' h (by simp only [Sess.emit]; rw [hctx]; omega)
+      split at h
+      · rename_i v rest hd
+        have hds : rest.length + 1 = s.m.ds.length := by rw [hd]; rfl
+        obtain ⟨a, b, c, d, dd, vs, e1, e2⟩ := ih _ s' h (by simp only [Sess.emit]; omega)
         simp only [Sess.emit] at a b c d dd e1 e2
-        rw [hctx] at a b
-        exact ⟨a, b, c, d, by rw [dd, hdict], v :: vs, by rw [e1, hcode]; simp, by simp; omega⟩
-      | err e => cases h
-      | panic p => cases h
+        exact ⟨a, b, c, d, dd, v :: vs, by rw [e1]; simp, by simp; omega⟩
+      · rename_i hd
+        exfalso
+        rw [hd] at hgt
+        simp at hgt
     · cases h
       exact ⟨by omega, rfl, rfl, rfl, rfl, [], by simp, by simp⟩
 
